@@ -39,3 +39,7 @@ chk("C18",
     "Design level: TLC checks on a boundary grid of channel values that every blend mode and compositing primitive of Pixel.tla (all 28 modes transcribed from sw-composite, self-checked against the real functions on thousands of tuples each run) preserves r,g,b <= a and the endpoint lemmas. Implementation level: the C03 canvas histories (28 modes, coverage and clip ramps, alpha, layers) with premultiplied inputs are executed and TLC evaluates Premul on every recorded pixel after every call; from_unpremultiplied_argb / From<Color> are checked for all 256x256 (alpha, colour) pairs.",
     _canvas_note + " The non-separable modes' defect inside sw-composite is a known finding.",
     "TLA+ Pixel.tla invariants model-checked by TLC + TLC trace validation of Premul on recorded histories", "DESIGN.md 7 C18")
+chk("C17",
+    "Contains.tla defines containment of a point in a polyline path exactly (on an explicit segment, or winding number of the implicitly closed PathSem loops inside under the rule, the same loops Coverage.tla fills). TLC enumerates every triangle (thorough: quadrilateral) on a 0..3 grid as path ops with open/closed/op-after-Close/first-op-LineTo variants and samples two-loop paths; the harness asks contains_point at every half-integer point around each path and TLC validates every answer.",
+    "Trusted: harness path construction and query grid. Lattice inputs: flatten is the identity and all f32 arithmetic is exact. Points lying only on an implicit closing segment are left open.",
+    "TLA+ spec (Contains.tla over PathSem/Geom) + TLC-enumerated paths + TLC trace validation of recorded answers", "DESIGN.md 7 C17")
